@@ -94,4 +94,9 @@ KeyChoicesR   == {{}, {"key1"}, {"key1", "key2"}, {"key3", "key4"}}
 Export == Len(hist) < MaxSteps \/ PrintT(<<"BEHAVIOUR", ToJson(hist)>>)
 \* J2: print the BFS path of every distinct state (exhaustive mode): evaluated once per new state
 ExportNode == PrintT(<<"NODE", ToJson(hist)>>)
+\* ... and, in exhaustive mode, with the successful state-changing actions enabled in that state, so that the harness
+\* executes EVERY successful transition of the bounded model (not only the edges of the BFS tree)
+OkActs == {a \in ActionSet : LET r == Apply(st, a) IN
+              r.ok /\ ~r.bound /\ r.S # st /\ (a.act = "NextBlock" => st.height + a.gap <= MaxHeight)}
+ExportNodeEdges == PrintT(<<"NODE", ToJson(hist), "OK", ToJson(SetToSeq(OkActs))>>)
 =============================================================================
